@@ -13,6 +13,10 @@
 //!   maxrows <n>
 //!   vars                                            report vars() after every row
 //!   continue                                        keep calling next() after an error item (recorded as an ERR row)
+//!   rerun                                           C15: parse and bind the text a second time ("reparse_equal"), iterate the test a
+//!                                                   second time with a fresh driver of the same behaviour ("rerun_same"), and run two
+//!                                                   iterators over the one test in lock step ("interleaved_same"); rows are compared
+//!                                                   with the first run
 //!   verdicts                                        append to every row ` pass [..] fail [..] unchecked [..]`: the names of the entries
 //!                                                   with check() true / false, the names returned by failing_outputs() must equal
 //!                                                   the `fail` list (else `failing_outputs-differs`), and !is_checked()
@@ -259,6 +263,7 @@ fn main() {
     let mut keep_going = false;
     let mut want_static = false;
     let mut want_verdicts = false;
+    let mut want_rerun = false;
     let mut program = String::new();
     let mut in_prog = false;
     for line in text.split_inclusive('\n') {
@@ -302,6 +307,7 @@ fn main() {
             "continue" => keep_going = true,
             "static" => want_static = true,
             "verdicts" => want_verdicts = true,
+            "rerun" => want_rerun = true,
             "program" => in_prog = true,
             _ => {}
         }
@@ -340,6 +346,7 @@ fn main() {
         Ok(Ok(t)) => t,
     };
     let signames = tc.signals.iter().map(|s| s.name.clone()).collect::<Vec<_>>().join(" ");
+    let cfg2 = cfg.clone();
     let mut drv = Drv { signals: &tc.signals, cfg, calls: 0, log: vec![] };
     let mut dynproj: Vec<String> = vec![];
     let res = catch_unwind(AssertUnwindSafe(|| {
@@ -424,6 +431,60 @@ fn main() {
             }
             if let Some(e) = err {
                 o.push_str(&format!(",\"message\":\"{}\"", esc(&e)));
+            }
+            if want_rerun {
+                let fmt_row = |r: &digital_test_runner::DataRow<'_>| {
+                    format!(
+                        "line {} in [{}] out [{}]",
+                        r.line,
+                        fmt_inputs(&r.inputs),
+                        r.outputs.iter().map(|x| format!("{}={}/{}", x.signal.name, x.output, x.expected)).collect::<Vec<_>>().join(" ")
+                    )
+                };
+                let collect = |d: &mut Drv<'_>| -> Vec<String> {
+                    let mut v = vec![];
+                    if let Ok(it) = tc.try_iter(d) {
+                        for item in it.take(maxrows) {
+                            match item {
+                                Ok(r) => v.push(fmt_row(&r)),
+                                Err(_) => {
+                                    v.push("ERR".into());
+                                    break;
+                                }
+                            }
+                        }
+                    }
+                    v
+                };
+                let r = catch_unwind(AssertUnwindSafe(|| {
+                    let mut d1 = Drv { signals: &tc.signals, cfg: cfg2.clone(), calls: 0, log: vec![] };
+                    let first = collect(&mut d1);
+                    let mut d2 = Drv { signals: &tc.signals, cfg: cfg2.clone(), calls: 0, log: vec![] };
+                    let second = collect(&mut d2);
+                    // two iterators over the one test, advanced alternately
+                    let mut da = Drv { signals: &tc.signals, cfg: cfg2.clone(), calls: 0, log: vec![] };
+                    let mut db = Drv { signals: &tc.signals, cfg: cfg2.clone(), calls: 0, log: vec![] };
+                    let (mut va, mut vb) = (vec![], vec![]);
+                    if let (Ok(mut ia), Ok(mut ib)) = (tc.try_iter(&mut da), tc.try_iter(&mut db)) {
+                        for _ in 0..maxrows {
+                            let (xa, xb) = (ia.next(), ib.next());
+                            if xa.is_none() && xb.is_none() {
+                                break;
+                            }
+                            va.push(match xa { Some(Ok(r)) => fmt_row(&r), Some(Err(_)) => "ERR".into(), None => "END".into() });
+                            vb.push(match xb { Some(Ok(r)) => fmt_row(&r), Some(Err(_)) => "ERR".into(), None => "END".into() });
+                            if va.last().map(|s| s == "ERR").unwrap_or(false) {
+                                break;
+                            }
+                        }
+                    }
+                    let reparsed = program.parse::<ParsedTestCase>().ok().and_then(|p| p.with_signals(signals.clone()).ok());
+                    (first == second, va == vb && va.iter().filter(|s| *s != "END").cloned().collect::<Vec<_>>() == first, reparsed.as_ref() == Some(&tc))
+                }));
+                match r {
+                    Ok((a, b, c)) => o.push_str(&format!(",\"rerun_same\":{},\"interleaved_same\":{},\"reparse_equal\":{}", a, b, c)),
+                    Err(p) => o.push_str(&format!(",\"rerun_same\":\"panic: {}\"", esc(&panic_msg(p)))),
+                }
             }
             if want_static {
                 let st = catch_unwind(AssertUnwindSafe(|| match tc.try_iter_static() {
